@@ -36,10 +36,15 @@ impl Report {
         Report { max_violations: 40, ..Default::default() }
     }
     pub fn bump(&mut self, k: &str) {
-        *self.counters.entry(k.to_string()).or_insert(0) += 1;
+        self.add(k, 1);
     }
     pub fn add(&mut self, k: &str, n: u64) {
-        *self.counters.entry(k.to_string()).or_insert(0) += n;
+        // no allocation on the hot path (matters under Miri)
+        if let Some(v) = self.counters.get_mut(k) {
+            *v += n;
+        } else {
+            self.counters.insert(k.to_string(), n);
+        }
     }
     pub fn max(&mut self, k: &str, n: u64) {
         let e = self.counters.entry(k.to_string()).or_insert(0);
